@@ -2,11 +2,13 @@ use crate::engine::{Ctx, Fail};
 
 pub mod c03;
 pub mod c04;
+pub mod c08;
 
 pub fn run(ctx: &Ctx) -> bool {
     match ctx.id.as_str() {
         "C03" => c03::run(ctx),
         "C04" => c04::run(ctx),
+        "C08" => c08::run(ctx),
         _ => return false,
     }
     true
@@ -17,6 +19,7 @@ fn replay_one(ctx: &Ctx, sub: &str, input: &serde_json::Value) -> Option<Result<
     Some(match ctx.id.as_str() {
         "C03" => c03::replay(ctx, input),
         "C04" => c04::replay(ctx, sub, input),
+        "C08" => c08::replay(ctx, sub, input),
         _ => return None,
     })
 }
